@@ -341,6 +341,23 @@ def ulp_close(ty, xa, xb, ulps):
     return abs(key(ia) - key(ib)) <= ulps
 
 
+def to_float(ty, x):
+    if x == "nan":
+        return float("nan")
+    if ty == "f32":
+        return struct.unpack("<f", struct.pack("<I", int(x, 16)))[0]
+    return struct.unpack("<d", struct.pack("<Q", int(x, 16)))[0]
+
+
+def abs_close(ty, xa, xb, tol):
+    if xa == xb:
+        return True
+    if "-" in (xa, xb):
+        return False
+    fa, fb = to_float(ty, xa), to_float(ty, xb)
+    return abs(fa - fb) <= tol
+
+
 def lines_agree(a, b, e, config, n):
     """Equality of canonical lines; on the nightly build (FastMath tail: algebraic float ops) float results are
     held to the property's own tolerance: element-wise division 2 ulp, reductions a relative slack that every
@@ -356,6 +373,92 @@ def lines_agree(a, b, e, config, n):
     op = e["op"]
     if op in ("generic_div_value", "generic_div_vector"):
         return all(ulp_close(e["ty"], x, y, 2) for x, y in zip(ta[1:], tb[1:]))
-    if op in ("generic_sum", "generic_dot_product", "generic_squared_norm", "generic_euclidean", "generic_cosine"):
+    if op == "generic_cosine":
+        # 1 - dot/sqrt(nx*ny) cancels: the property's tolerance is absolute, 4(n+8)u, twice (both sides may err)
+        u = 2.0 ** -24 if e["ty"] == "f32" else 2.0 ** -53
+        return all(abs_close(e["ty"], x, y, 8 * (n + 8) * u) for x, y in zip(ta[1:], tb[1:]))
+    if op in ("generic_sum", "generic_dot_product", "generic_squared_norm", "generic_euclidean"):
         return all(ulp_close(e["ty"], x, y, 64 * (n + 8)) for x, y in zip(ta[1:], tb[1:]))
     return False
+
+
+# ------------------------------------------------------------------------------------------------
+# property-level driver: implementation vs model (correspondence) AND implementation vs specification
+# ------------------------------------------------------------------------------------------------
+FLOAT_REDUCTIONS = {"generic_sum", "generic_dot_product", "generic_squared_norm", "generic_euclidean", "generic_cosine"}
+
+
+def spec_agrees(a, s, e, config, n):
+    """Does the implementation line [a] meet the specification line [s]?  None = the spec does not constrain it."""
+    if s is None or s.startswith("unspecified") or s.startswith("error"):
+        return None
+    if s == "panic":
+        return a is not None and a.startswith("panic")
+    return lines_agree(a, s, e, config, n)
+
+
+def run_property(ctx, what, pid, ops=None, tys=None, configs=("stable", "nightly"), classes=("random", "boundary"),
+                 lens_fn=None, places=("R",), forms=("a",), const_dims=None, seed_tag=0, regs=None, debug_cfg=False):
+    facts = load_facts(ctx)
+    lens_fn = lens_fn or quick_lens
+    total_bad = 0
+    for config in configs:
+        rows = select(facts, config, ops=ops, tys=tys, regs=regs)
+        if not rows:
+            continue
+        cases, meta = gen_cases(ctx, rows, lens_fn, classes, places=places, forms=forms, seed_tag=seed_tag,
+                                debug=(config == "debug"), const_dims=const_dims)
+        ok, log = harness_build.build_cfh(config)
+        okd, logd = harness_build.build_driver()
+        if not ok or not okd:
+            ctx.broke("correspondence", "%s: build (%s)" % (what, config), (log if not ok else logd)[-1500:])
+            continue
+        imp = runner.impl("exp", cases, config=config)
+        mod = runner.model("exp", cases)
+        spc = runner.model("spec", cases)
+        bad_model = bad_spec = n_spec = 0
+        dist = {}
+        for c, m, a, b, s in zip(cases, meta, imp, mod, spc):
+            idx, e, form, n, cls, place = m
+            L = lanes(e)
+            k = "%s_%s" % (cls, "len0" if n == 0 else "lt_L" if n < L else "lt_8L" if n < 8 * L else "ge_8L")
+            dist[k] = dist.get(k, 0) + 1
+            if b is not None and b.startswith("panic"):
+                dist["panic_cases"] = dist.get("panic_cases", 0) + 1
+            name = e["xconst"] if form == "c" else e["xany"]
+            if a is None or a.startswith("signal") or "CANARY" in a or "INPUT-MODIFIED" in a:
+                ctx.violation("%s:memory:%s" % (pid, name),
+                              "%s (n=%d, placement %s, %s build) %s" % (
+                                  name, n, place, config,
+                                  "crashed: an access outside its slices hit a guard page" if (a is None or a.startswith("signal"))
+                                  else "modified an input or memory around the result slice"),
+                              {"kind": "input", "case": "exp " + c[:6000], "build": config, "observed": a, "expected": (b or "")[:2000]})
+                continue
+            verdict = spec_agrees(a, s, e, config, n)
+            if verdict is not None:
+                n_spec += 1
+            if verdict is False:
+                bad_spec += 1
+                ctx.violation("%s:spec:%s" % (pid, name),
+                              "%s (n=%d, %s data, placement %s, %s build) returned a result the property forbids" % (
+                                  name, n, cls, place, config),
+                              {"kind": "input", "case": "exp " + c[:6000], "build": config, "observed": (a or "")[:2000],
+                               "expected_by_spec": (s or "")[:2000], "model": (b or "")[:2000]})
+                continue
+            if not lines_agree(a, b, e, config, n):
+                bad_model += 1
+                if bad_model <= 3:
+                    ctx.broke("correspondence", "%s: %s n=%d place=%s (%s): implementation and model differ (specification %s)" % (
+                        what, name, n, place, config, "met" if verdict else "silent"),
+                        {"case": c[:3000], "impl": (a or "")[:1200], "model": (b or "")[:1200], "spec": (s or "")[:600]})
+        ctx.cover(len(cases), distinct_keys=["%s|%s|%d" % (what, config, hash(c)) for c in cases],
+                  samples=[{"case": cases[len(cases) // 2][:240], "impl": (imp[len(cases) // 2] or "")[:120],
+                            "model": (mod[len(cases) // 2] or "")[:120], "spec": (spc[len(cases) // 2] or "")[:120]}],
+                  rule="%s (%s build): exports called by name on guard-paged slices; the implementation line must equal the "
+                       "Coq model's line (correspondence) and meet the Coq-extracted specification's line (oracle); value "
+                       "classes %s; distinct = distinct case line" % (what, config, list(classes)),
+                  dist=dist)
+        ctx.extra.setdefault("correspondence_C", {})["%s/%s" % (what, config)] = {
+            "cases": len(cases), "model_disagreements": bad_model, "spec_decided": n_spec, "spec_violations": bad_spec}
+        total_bad += bad_model + bad_spec
+    return total_bad
